@@ -117,8 +117,8 @@ structure Inv (m : Mgr) : Prop where
 theorem inv_update {m : Mgr} {c c' : Client} {t' : Table} (hi : Inv m) (hc : c ∈ m.clients)
     (hh : c'.host = c.host) (hwf : WF t')
     (hsrc : ∀ x ∈ recs t', x ∈ recs m.table ∨ x.2.src = c.host)
-    (hp : ∀ x ∈ c'.pending, x.2.src = c.host) :
-    Inv { clients := setClient m.clients c', table := t' } := by
+    (hp : ∀ x ∈ c'.pending, x.2.src = c.host) {k : Nat} :
+    Inv ⟨setClient m.clients c', t', k⟩ := by
   refine ⟨hwf, ?_, ?_⟩
   · intro x hx
     simp only [hosts_setClient]
@@ -248,8 +248,11 @@ theorem inv_step (m : Mgr) (e : Ev) (hi : Inv m) : Inv (step m e).1 := by
     · exact hi
     · rename_i c hf
       obtain ⟨hc, _⟩ := findClient_some hf
-      exact inv_update hi hc (softReset_host _) hi.wf (fun x hx => Or.inl hx)
-        (fun x hx => hi.pending c hc x (softReset_pending ({ c with conn := .open } : Client) x hx))
+      refine inv_update (c := c) hi hc ?_ hi.wf (fun x hx => Or.inl hx) ?_
+      · exact softReset_host _
+      · intro x hx
+        have := softReset_pending _ x hx
+        exact hi.pending c hc x this
   | connClosed h =>
     simp only [step]
     split
@@ -264,17 +267,25 @@ theorem inv_step (m : Mgr) (e : Ev) (hi : Inv m) : Inv (step m e).1 := by
     · exact hi
     · rename_i c hf
       obtain ⟨hc, _⟩ := findClient_some hf
-      exact inv_update hi hc rfl hi.wf (fun x hx => Or.inl hx) (by simp)
-  | lifetime h =>
+      refine inv_update (c := c) hi hc ?_ hi.wf (fun x hx => Or.inl hx) ?_
+      · rfl
+      · intro x hx; cases hx
+  | lifetime h g =>
     simp only [step]
     split
     · exact hi
     · rename_i c hf
       obtain ⟨hc, hh⟩ := findClient_some hf
       split
-      · exact inv_update hi hc rfl hi.wf (fun x hx => Or.inl hx) (hi.pending c hc)
-      · exact inv_update hi hc rfl (wf_deleteAll _ _ hi.wf)
-          (fun x hx => Or.inl ((mem_recs_deleteAll _ _ _).mp hx).1) (hi.pending c hc)
+      · exact hi
+      · split
+        · refine inv_update (c := c) hi hc ?_ hi.wf (fun x hx => Or.inl hx) ?_
+          · rfl
+          · exact hi.pending c hc
+        · refine inv_update (c := c) hi hc ?_ (wf_deleteAll _ _ hi.wf)
+            (fun x hx => Or.inl ((mem_recs_deleteAll _ _ _).mp hx).1) ?_
+          · rfl
+          · exact hi.pending c hc
   | rtr h pdu =>
     simp only [step]
     split
@@ -309,6 +320,204 @@ theorem inv_step (m : Mgr) (e : Ev) (hi : Inv m) : Inv (step m e).1 := by
       exact inv_update hi hc (softReset_host c) (wf_deleteAll _ _ hi.wf)
         (fun x hx => Or.inl ((mem_recs_deleteAll _ _ _).mp hx).1)
         (fun x hx => hi.pending c hc x (softReset_pending _ x hx))
+
+/-! ### lifetime-timer generations -/
+
+/-- generation `g` has been issued and no client named `h` has the timer of generation `g`
+    running: a timeout event (h, g) still in the channel is stale -/
+def StaleGen (m : Mgr) (h g : Nat) : Prop :=
+  g ≤ m.timerSeq ∧ ∀ c ∈ m.clients, c.host = h → (c.timer = false ∨ c.timerGen ≠ g)
+
+theorem mem_setClient_host {cs : List Client} {c y : Client} (hy : y ∈ setClient cs c)
+    (hh : y.host = c.host) : y = c := by
+  simp only [setClient, List.mem_map] at hy
+  obtain ⟨x, _, e⟩ := hy
+  split at e
+  · exact e.symm
+  · rename_i hne
+    subst e
+    simp [hh] at hne
+
+theorem stale_update {m : Mgr} {h g : Nat} {c c' : Client} {t' : Table} {k : Nat}
+    (hs : StaleGen m h g) (hc : c ∈ m.clients) (hh : c'.host = c.host) (hk : m.timerSeq ≤ k)
+    (ht : c'.timer = false ∨ (c'.timer = c.timer ∧ c'.timerGen = c.timerGen) ∨ g < c'.timerGen) :
+    StaleGen ⟨setClient m.clients c', t', k⟩ h g := by
+  refine ⟨Nat.le_trans hs.1 hk, ?_⟩
+  intro y hy hyh
+  rcases mem_setClient hy with rfl | hy'
+  · rcases ht with h1 | ⟨h1, h2⟩ | h1
+    · exact Or.inl h1
+    · rw [h1, h2]; exact hs.2 c hc (by rw [← hh]; exact hyh)
+    · right; omega
+  · exact hs.2 y hy' hyh
+
+theorem softReset_timer (c : Client) :
+    c.softReset.1.timer = c.timer ∧ c.softReset.1.timerGen = c.timerGen := by
+  unfold Client.softReset; split <;> exact ⟨rfl, rfl⟩
+theorem enable_timer (c : Client) : c.enable.1.timer = c.timer ∧ c.enable.1.timerGen = c.timerGen := by
+  unfold Client.enable; split <;> exact ⟨rfl, rfl⟩
+theorem reset_timer (c : Client) : c.reset.timer = c.timer ∧ c.reset.timerGen = c.timerGen := by
+  unfold Client.reset; split <;> exact ⟨rfl, rfl⟩
+theorem answered_timer (c : Client) :
+    c.answered.1.timer = c.timer ∧ c.answered.1.timerGen = c.timerGen := by
+  unfold Client.answered; split <;> exact ⟨rfl, rfl⟩
+
+theorem handleRTR_host (t : Table) (c : Client) (pdu : Pdu) : (handleRTR t c pdu).2.1.host = c.host := by
+  cases pdu with
+  | serialNotify sid sn =>
+    simp only [handleRTR]
+    split
+    · exact enable_host c
+    · split
+      · rfl
+      · exact softReset_host c
+  | cacheResponse sid => rfl
+  | «prefix» ann p ml as =>
+    simp only [handleRTR]
+    split
+    · split <;> rfl
+    · rfl
+  | endOfData sid sn => exact answered_host c
+  | cacheReset => simp only [handleRTR]; rw [softReset_host, answered_host]
+  | errorReport => exact answered_host c
+  | other => rfl
+
+/-- a PDU can only stop the timer -/
+theorem handleRTR_timer (t : Table) (c : Client) (pdu : Pdu) :
+    (handleRTR t c pdu).2.1.timer = false ∨
+      ((handleRTR t c pdu).2.1.timer = c.timer ∧ (handleRTR t c pdu).2.1.timerGen = c.timerGen) := by
+  cases pdu with
+  | serialNotify sid sn =>
+    simp only [handleRTR]
+    split
+    · exact Or.inr (enable_timer c)
+    · split
+      · exact Or.inr ⟨rfl, rfl⟩
+      · exact Or.inr (softReset_timer c)
+  | cacheResponse sid => exact Or.inr ⟨rfl, rfl⟩
+  | «prefix» ann p ml as =>
+    simp only [handleRTR]
+    split
+    · split <;> exact Or.inr ⟨rfl, rfl⟩
+    · exact Or.inr ⟨rfl, rfl⟩
+  | endOfData sid sn => exact Or.inl rfl
+  | cacheReset =>
+    simp only [handleRTR]
+    right
+    have h1 := softReset_timer c.answered.1
+    have h2 := answered_timer c
+    exact ⟨h1.1.trans h2.1, h1.2.trans h2.2⟩
+  | errorReport => exact Or.inr (answered_timer c)
+  | other => exact Or.inr ⟨rfl, rfl⟩
+
+theorem stale_step (m : Mgr) (e : Ev) (h g : Nat) (hs : StaleGen m h g) : StaleGen (step m e).1 h g := by
+  cases e with
+  | addServer h' =>
+    simp only [step]
+    split
+    · exact hs
+    · refine ⟨hs.1, ?_⟩
+      intro c hc hch
+      simp only [List.mem_append, List.mem_singleton] at hc
+      rcases hc with hc | rfl
+      · exact hs.2 c hc hch
+      · exact Or.inl rfl
+  | deleteServer h' =>
+    simp only [step]
+    split
+    · exact hs
+    · exact ⟨hs.1, fun c hc hch => hs.2 c (List.mem_filter.mp hc).1 hch⟩
+  | connected h' =>
+    simp only [step]
+    split
+    · exact hs
+    · rename_i c hf
+      obtain ⟨hc, _⟩ := findClient_some hf
+      refine stale_update (c := c) hs hc ?_ (Nat.le_refl _) ?_
+      · exact softReset_host _
+      · exact Or.inr (Or.inl (softReset_timer _))
+  | connClosed h' =>
+    simp only [step]
+    split
+    · exact hs
+    · rename_i c hf
+      obtain ⟨hc, _⟩ := findClient_some hf
+      exact stale_update (c := c) hs hc (reset_host c) (Nat.le_refl _) (Or.inr (Or.inl (reset_timer c)))
+  | disconnected h' =>
+    simp only [step]
+    split
+    · exact hs
+    · rename_i c hf
+      obtain ⟨hc, _⟩ := findClient_some hf
+      by_cases ht : c.timer = true
+      · refine stale_update (c := c) hs hc rfl (by simp [ht]) ?_
+        right; left
+        simp [ht]
+      · refine stale_update (c := c) hs hc rfl (by simp [ht]) ?_
+        right; right
+        have := hs.1
+        simp [ht]
+        omega
+  | lifetime h' g' =>
+    simp only [step]
+    split
+    · exact hs
+    · rename_i c hf
+      obtain ⟨hc, _⟩ := findClient_some hf
+      split
+      · exact hs
+      · split
+        · exact stale_update (c := c) hs hc rfl (Nat.le_refl _) (Or.inl rfl)
+        · exact stale_update (c := c) hs hc rfl (Nat.le_refl _) (Or.inl rfl)
+  | rtr h' pdu =>
+    simp only [step]
+    split
+    · exact hs
+    · rename_i c hf
+      obtain ⟨hc, _⟩ := findClient_some hf
+      refine stale_update (c := c) hs hc (handleRTR_host _ c pdu) (Nat.le_refl _) ?_
+      rcases handleRTR_timer m.table c pdu with h1 | h1
+      · exact Or.inl h1
+      · exact Or.inr (Or.inl h1)
+  | enable h' =>
+    simp only [step]
+    split
+    · exact hs
+    · rename_i c hf
+      obtain ⟨hc, _⟩ := findClient_some hf
+      exact stale_update (c := c) hs hc (enable_host c) (Nat.le_refl _) (Or.inr (Or.inl (enable_timer c)))
+  | disable h' =>
+    simp only [step]
+    split
+    · exact hs
+    · rename_i c hf
+      obtain ⟨hc, _⟩ := findClient_some hf
+      exact stale_update (c := c) hs hc (reset_host c) (Nat.le_refl _) (Or.inr (Or.inl (reset_timer c)))
+  | softReset h' =>
+    simp only [step]
+    split
+    · exact hs
+    · rename_i c hf
+      obtain ⟨hc, _⟩ := findClient_some hf
+      exact stale_update (c := c) hs hc (softReset_host c) (Nat.le_refl _) (Or.inr (Or.inl (softReset_timer c)))
+
+theorem stale_run (m : Mgr) (evs : List Ev) (h g : Nat) (hs : StaleGen m h g) : StaleGen (run m evs) h g := by
+  induction evs generalizing m with
+  | nil => exact hs
+  | cons e es ih => exact ih _ (stale_step m e h g hs)
+
+/-- a stale timeout event changes nothing -/
+theorem stale_lifetime_noop (m : Mgr) (h g : Nat) (hs : StaleGen m h g) :
+    step m (.lifetime h g) = (m, true, []) := by
+  simp only [step]
+  split
+  · rfl
+  · rename_i c hf
+    obtain ⟨hc, hh⟩ := findClient_some hf
+    rcases hs.2 c hc hh with h1 | h1
+    · simp [h1]
+    · have : g ≠ c.timerGen := fun e => h1 e.symm
+      simp [this]
 
 theorem inv_run (m : Mgr) (evs : List Ev) (hi : Inv m) : Inv (run m evs) := by
   induction evs generalizing m with
